@@ -27,6 +27,7 @@ inductive Item where
   | stepCall (c : Nat)
   | stopCall (cr : Bool)     -- `portal.call(portal.stop, cr)`: itself a portal call
   | stopStep (cr : Bool)
+  | blocker                  -- a plain callback that parks the loop until `unblock`
 
 structure DState where
   s       : State
@@ -136,6 +137,7 @@ def runItem (d : DState) (it : Item) : DState :=
     if d1.wantStarted.contains c then fireD d1 (.started c c) else d1
   | .stopCall cr => { d with ready := d.ready ++ [.stopStep cr] }
   | .stopStep cr => fireD d (.stop cr)
+  | .blocker => { d with blocked := true }
 
 def settle : Nat → DState → DState
   | 0, d => d
@@ -151,9 +153,9 @@ def settle : Nat → DState → DState
 def obs (d : DState) : String :=
   let s := d.s
   let cs := List.range d.ncalls
-  let per := cs.map (fun c =>
+  let per := (cs.filter (fun c => decide (s.pc c ≠ .none))).map (fun c =>
     let f := if s.pc c = .refused then "refused" else futStr (s.fut c)
-    let st := if s.kind c = .task then statusStr (s.status c) else "-"
+    let st := if s.kind c = .task ∧ s.pc c ≠ .refused then statusStr (s.status c) else "-"
     s!"{c}={f}/{s.execs c}/{st}")
   s!"exited={Driver.bool01 (decide (s.portal = .stopped))} live={s.live.length} | " ++
     " ".intercalate per
@@ -162,7 +164,9 @@ def handle (d : DState) : List String → DState × String
   | ["new"] => ({ DState.init with hits := d.hits }, "ok")
   | ["obs"] => (d, obs d)
   | ["settle"] => (settle 10000 d, "ok")
-  | ["block"] => ({ d with blocked := true }, "ok")
+  | ["block"] =>
+    if d.blocked then ({ d with ready := d.ready ++ [.blocker] }, "ok")
+    else ({ d with blocked := true }, "ok")
   | ["unblock"] => ({ d with blocked := false }, "ok")
   | ["hits"] => (d, " ".intercalate (d.hits.map (fun p => s!"{p.1}={p.2}")))
   | ["state"] =>
